@@ -17,6 +17,7 @@ import tempfile
 import time
 
 HERE = os.path.dirname(os.path.dirname(os.path.abspath(__file__)))
+LAST_UNRESOLVED = []
 scratch = tempfile.mkdtemp(prefix='verif-seedmatrix-')
 os.environ['VERIF_SCRATCH_OUT'] = scratch
 sys.path.insert(0, HERE)
@@ -33,6 +34,7 @@ F = facts.Facts(p); F.info = info
 ch = anchors.state_chunker(F)
 if ch is not None: effects.CHUNK_SOURCES.add(ch.defpath)
 caught = []
+unres = []
 for prop in %r:
     mod = importlib.import_module('props.' + prop)
     ctx = report.Ctx(prop, 'quick', {'default': F}, 0); ctx.replay = None
@@ -44,10 +46,16 @@ for prop in %r:
     except Exception as e:
         rc = 1; buf.write('checker error: %%r' %% (e,))
     if rc: caught.append(prop)
+    unres += [prop + ':' + o.key for o in ctx.obs if o.status == 'unresolved']
+print('UNRES ' + ' '.join(u.replace(' ', '_') for u in unres))
 print('CAUGHT ' + ' '.join(caught))
 """ % (HERE, claimed)
     out = subprocess.run([sys.executable, '-c', code], capture_output=True, text=True, cwd=HERE, env=os.environ)
+    global LAST_UNRESOLVED
+    LAST_UNRESOLVED = []
     for line in out.stdout.splitlines():
+        if line.startswith('UNRES'):
+            LAST_UNRESOLVED = line.split()[1:]
         if line.startswith('CAUGHT'):
             return line.split()[1:]
     return ['<extract/engine failure: %s>' % (out.stderr.strip().splitlines()[-1] if out.stderr.strip() else '?')]
@@ -72,7 +80,8 @@ def main():
                 alarms = run_all(claimed)
             finally:
                 subprocess.run(['git', '-C', '/repo', 'checkout', '--', '.'], check=True)
-            print('%s: %s' % (name, 'silent' if not alarms else 'FALSE ALARM from [%s]' % ' '.join(alarms)), flush=True)
+            grip = '' if not LAST_UNRESOLVED else '  (rule instances that lost their grip and became unresolved: %s)' % ' '.join(LAST_UNRESOLVED)
+            print('%s: %s%s' % (name, 'silent' if not alarms else 'FALSE ALARM from [%s]' % ' '.join(alarms), grip), flush=True)
             rc = rc or bool(alarms)
         return int(rc)
     seeds = [os.path.realpath(a) for a in args] or sorted(glob.glob(os.path.join(HERE, 'seeded', '*')))
